@@ -20,6 +20,12 @@ handshake (client without ALPN / offering lists with or without http/1.1), then 
 after the CONNECT, with the upstream protocol known or unknown -- a second, inner ``ClientTLSLayer`` handshake with its
 own offer list.  The oracle is unchanged: outer = secure-web-proxy rule, inner = offered-or-none, upstream-or-none, no h2
 when disabled.
+
+A fourth leg ("realstack") lets the REAL NextLayer addon build the layer stack: ``modes.HttpProxy(context)`` is the top
+layer, its ``next_layer`` hook is answered by the real ``NextLayer().next_layer`` from the ClientHello bytes (which creates
+ClientTLSLayer and HttpLayer up front), TlsConfig supplies the TLS connection, and the client's view of the negotiated
+protocol on this secure-web-proxy *outer* connection is judged (only http/1.1 or none).  The history leg uses this real
+stack for its outer handshake as well.
 """
 import itertools
 import ssl
@@ -32,9 +38,12 @@ from mitmproxy import tls
 from mitmproxy.proxy import commands
 from mitmproxy.proxy import events
 from mitmproxy.proxy import layer as mlayer
+from mitmproxy.addons import next_layer
 from mitmproxy.addons import tlsconfig
+from mitmproxy.addons.proxyserver import Proxyserver
 from mitmproxy.proxy import context
 from mitmproxy.proxy import layers
+from mitmproxy.proxy import mode_specs
 from mitmproxy.proxy.layers import modes
 from mitmproxy.test import taddons
 
@@ -47,7 +56,8 @@ BUDGET = {"quick": (1_200, 18), "thorough": (6_000, 200)}
 WORKERS = {"quick": 2, "thorough": 16}
 REQUIRED = ["callback.offered_or_none", "callback.upstream_or_none", "callback.no_h2_when_disabled",
             "callback.outer_http11_only", "callback.selected_some", "handshake.oracle", "handshake.selected_some",
-            "history.outer.oracle", "history.inner.oracle", "history.inner.selected_some", "history.inner_after_outer_alpn"]
+            "history.outer.oracle", "history.inner.oracle", "history.inner.selected_some", "history.inner_after_outer_alpn",
+            "realstack.outer_http11_only", "realstack.selected_some"]
 RULE = (
     "case = (layer stack, upstream ALPN, http2 option, client offer list); the callback leg enumerates all 3 x 8 x 2 x 259 "
     "combinations (offer lists of length<=3 over 6 protocol classes, ordered, with repetition) in both tiers; the handshake "
@@ -55,7 +65,8 @@ RULE = (
     "protocol names (thorough), and a client without ALPN extension; the history leg runs outer+inner handshakes on one client "
     "connection through the real ClientTLSLayer: outer offer in {no ALPN, [http/1.1], [h2,http/1.1], [h2], [x-unknown,http/1.1]} x "
     "upstream x http2 x inner offer (quick: 13 lists incl. every single protocol and pairs containing the outer protocol; "
-    "thorough: all lists of length<=2 plus random ones); distinct = distinct (leg, stack, upstream, http2, offer "
+    "thorough: all lists of length<=2 plus random ones); the realstack leg (layer stack built by the real NextLayer addon under "
+    "HttpProxy / HttpUpstreamProxy) enumerates all offer lists of length<=2 (thorough: <=3) x http2; distinct = distinct (leg, stack, upstream, http2, offer "
     "classes[, outer offer]) combination; non-trivial = the client offers at least one protocol"
 )
 ASSUMPTIONS = [
@@ -84,7 +95,7 @@ def oracle(stack, upstream, http2, offers, selected):
     bad = []
     if selected != NONE and selected not in offers:
         bad.append("not-offered")
-    if stack == "swp-outer":
+    if stack in ("swp-outer", "swp-outer-realstack"):
         if selected not in (NONE, b"http/1.1"):
             bad.append("outer-not-http11")
     elif upstream is not None:
@@ -99,6 +110,13 @@ def oracle(stack, upstream, http2, offers, selected):
 
 def classify(stack, upstream, http2, offers, bad):
     """Mechanism from the input only."""
+    if stack == "swp-outer-realstack":
+        # stack built by the real NextLayer addon: [HttpProxy, ClientTLSLayer, HttpLayer] (3 layers, not 2); the client's most
+        # preferred HTTP protocol is not http/1.1
+        first_http = next((o for o in offers if o in (b"h3", b"h2", b"http/1.1", b"http/1.0", b"http/0.9") and (http2 or o != b"h2")), None)
+        if bad == ["outer-not-http11"] and first_http not in (None, b"http/1.1"):
+            return "secure-web-proxy-outer-alpn-not-forced-with-real-layer-stack"
+        return None
     if stack == "swp-outer":
         return None
     if bad == ["upstream-mismatch"] and upstream and upstream not in offers:
@@ -111,10 +129,10 @@ def classify(stack, upstream, http2, offers, bad):
 class World:
     def __init__(self):
         self.ta = tlsconfig.TlsConfig()
-        self.tctx_cm = taddons.context(self.ta)
+        self.nl = next_layer.NextLayer()
+        # Proxyserver only contributes its options (connection_strategy, validate_inbound_headers, ...)
+        self.tctx_cm = taddons.context(self.ta, self.nl, Proxyserver())
         self.tctx = self.tctx_cm.__enter__()
-        # normally registered by the proxyserver addon; read by TlsConfig.tls_clienthello ("eager" is the default)
-        self.tctx.options.add_option("connection_strategy", str, "eager", "")
         self.tctx.configure(self.ta, confdir=tempfile.mkdtemp(prefix="vf-c18-"))
         self.http2 = None
 
@@ -216,7 +234,7 @@ INNER_QUICK = [None, ()] + [(p,) for p in PROTOS] + [(b"h2", b"http/1.1"), (b"ht
                                                          (b"x-unknown", b"http/1.1"), (b"http/1.0", b"http/1.1")]
 
 
-def layer_handshake(w, lyr, client_conn, offers):
+def layer_handshake(w, lyr, client_conn, offers, real_next_layer=False):
     """Full TLS handshake of a stdlib ssl client against a ClientTLSLayer; hooks go to the real TlsConfig addon.
     -> (ALPN the client observes or NONE, list of hook names) or (None, hooks) if the handshake did not complete."""
     cctx = ssl.SSLContext(ssl.PROTOCOL_TLS_CLIENT)
@@ -236,13 +254,16 @@ def layer_handshake(w, lyr, client_conn, offers):
                 if isinstance(cmd, commands.StartHook):
                     hooks.append(cmd.name)
                     if isinstance(cmd, mlayer.NextLayerHook):
-                        cmd.data.layer = Sink(cmd.data.context)
+                        if real_next_layer:
+                            w.nl.next_layer(cmd.data)
+                        else:
+                            cmd.data.layer = Sink(cmd.data.context)
                     elif hasattr(w.ta, cmd.name):
                         getattr(w.ta, cmd.name)(*cmd.args())
                     queue.append(events.HookCompleted(cmd, None))
                 elif isinstance(cmd, commands.SendData):
                     inc.write(cmd.data)
-                elif isinstance(cmd, commands.Log):
+                elif isinstance(cmd, (commands.Log, commands.RequestWakeup)):
                     pass
                 else:
                     raise AssertionError(f"unexpected command {cmd!r}")
@@ -257,7 +278,15 @@ def layer_handshake(w, lyr, client_conn, offers):
             pass
         data = out.read()
         if data:
-            pump(events.DataReceived(client_conn, data))
+            try:
+                pump(events.DataReceived(client_conn, data))
+            except Exception as e:
+                if not done:
+                    raise
+                # The client has completed its handshake: the selection is decided. What the child layer does with the
+                # negotiated protocol afterwards (e.g. HTTP/3 over TCP asserts) is outside this property; it is recorded only.
+                hooks.append(f"post-handshake-exception:{type(e).__name__}")
+                data = b""
         if done and not data:
             sel = c.selected_alpn_protocol()
             return (sel.encode("latin-1") if sel is not None else NONE), hooks
@@ -276,18 +305,18 @@ def run_history(ctx, w, outer_offers, upstream, http2, inner_offers):
     wit = {"outer_offers": list(outer_offers) if outer_offers is not None else None, "upstream": upstream, "http2": http2,
            "inner_offers": list(inner_offers) if inner_offers is not None else None}
     # 1. secure web proxy: outer TLS between client and proxy
-    modes.HttpProxy(c)
-    outer = layers.ClientTLSLayer(c)
-    sel_outer, hooks = layer_handshake(w, outer, client, outer_offers)
+    #    (stack built by the real NextLayer addon from the ClientHello: HttpProxy >> ClientTLSLayer >> HttpLayer)
+    top = modes.HttpProxy(c)
+    sel_outer, hooks = layer_handshake(w, top, client, outer_offers, real_next_layer=True)
     if sel_outer is None or not client.tls_established:
         ctx.count("history.incomplete")
         return "outer-incomplete"
     ctx.count("history.outer.oracle")
-    bad = oracle("swp-outer", None, http2, outer_offers or (), sel_outer)
+    bad = oracle("swp-outer-realstack", None, http2, outer_offers or (), sel_outer)
     if bad:
-        ctx.violation("history-outer:" + "+".join(bad), {**wit, "selected_outer": sel_outer})
+        ctx.violation("history-outer:" + "+".join(bad), {**wit, "selected_outer": sel_outer, "layers": [type(x).__name__ for x in c.layers]},
+                      mechanism=classify("swp-outer-realstack", None, http2, outer_offers or (), bad))
     # 2. CONNECT handled by the HTTP layer; upstream TLS established first (eager) -> its protocol is known, or not yet connected
-    Sink(c)
     layers.ServerTLSLayer(c)
     # upstream unknown = lazy connection strategy (no server connection yet); known = eager, upstream TLS done first
     strategy = "lazy" if upstream is None else "eager"
@@ -317,6 +346,37 @@ def run_history(ctx, w, outer_offers, upstream, http2, inner_offers):
     return f"outer={sel_outer if sel_outer == NONE else sel_outer.decode()},inner={sel_inner if sel_inner == NONE else cls_of(sel_inner)}"
 
 
+def run_realstack(ctx, w, top_cls, http2, offers):
+    if w.http2 != http2:
+        w.tctx.configure(w.ta, http2=http2)
+        w.http2 = http2
+    client = connection.Client(peername=("192.0.2.1", 51234), sockname=("127.0.0.1", 8080), timestamp_start=1.0,
+                               state=connection.ConnectionState.OPEN)
+    if top_cls is modes.HttpUpstreamProxy:
+        client.proxy_mode = mode_specs.ProxyMode.parse("upstream:https://proxy.example:8443")
+    c = context.Context(client, w.tctx.options)
+    top = top_cls(c)
+    sel, hooks = layer_handshake(w, top, client, offers, real_next_layer=True)
+    if sel is None:
+        ctx.count("realstack.incomplete")
+        return "incomplete"
+    stack = "swp-outer-realstack" if top_cls is modes.HttpProxy else "upstream-mode-outer"
+    eff = offers or ()
+    ctx.count("realstack.outer_http11_only" if top_cls is modes.HttpProxy else "realstack.upstream_mode_offered_or_none")
+    if sel != NONE:
+        ctx.count("realstack.selected_some")
+    ctx.seen("realstack_layer_stacks", " >> ".join(type(x).__name__ for x in c.layers))
+    if any(h.startswith("post-handshake-exception") for h in hooks):
+        ctx.count("realstack.post_handshake_layer_exception")
+        ctx.seen("post_handshake_layer_exceptions", (cls_of(sel) if sel != NONE else NONE, hooks[-1]))
+    bad = oracle(stack, None, http2, eff, sel)
+    if bad:
+        ctx.violation("realstack:" + "+".join(bad), {"top_layer": top_cls.__name__, "http2": http2, "offers": list(eff), "selected": sel,
+                                                      "layers_at_handshake": [type(x).__name__ for x in c.layers], "hooks": hooks},
+                      mechanism=classify(stack, None, http2, eff, bad))
+    return sel if sel == NONE else cls_of(sel)
+
+
 def cls_of(p: bytes):
     return p.decode() if p in PROTOS[:5] else "unknown"
 
@@ -338,7 +398,10 @@ def run(ctx):
     if ctx.tier == "quick":
         hist_space = [x for x in hist_space if x[0] in (None, (b"http/1.1",), (b"h2", b"http/1.1"))]
     n_hist = len(hist_space)
-    n_fixed = N_ENUM + n_hs_enum + n_hist
+    rs_space = [(t, h, o) for t in (modes.HttpProxy, modes.HttpUpstreamProxy) for h in (True, False)
+                for o in ([None] + (short_offers if ctx.tier == "quick" else OFFERS))]
+    n_rs = len(rs_space)
+    n_fixed = N_ENUM + n_hs_enum + n_hist + n_rs
     n_total = n_fixed + (ctx.n_cases if ctx.tier == "thorough" else 0)
     try:
         for i in ctx.cases(n=n_total):
@@ -366,7 +429,18 @@ def run(ctx):
                 continue
             r = ctx.rng
             hist = None
-            if N_ENUM + n_hs_enum <= i < n_fixed:
+            if N_ENUM + n_hs_enum + n_hist <= i < n_fixed:
+                t, h, o = rs_space[i - N_ENUM - n_hs_enum - n_hist]
+                try:
+                    outcome = run_realstack(ctx, w, t, h, o)
+                except Exception as e:
+                    ctx.violation("realstack-raises", {"top": t.__name__, "http2": h, "offers": list(o) if o else o, "exc": repr(e)})
+                    outcome = "raises"
+                ctx.case(("realstack", t.__name__, h, o), nontrivial=bool(o),
+                         sample={"leg": "realstack", "top_layer": t.__name__, "http2": h, "offers": list(o) if o else o, "client_sees": outcome}
+                         if i % 41 == 3 else None)
+                continue
+            if N_ENUM + n_hs_enum <= i < N_ENUM + n_hs_enum + n_hist:
                 hist = hist_space[i - N_ENUM - n_hs_enum]
             elif i >= n_fixed and r.random() < 0.3:
                 pool = PROTOS + [bytes(r.choice(b"abcxyz-/.0129") for _ in range(r.randint(1, 12)))]
@@ -408,5 +482,6 @@ def run(ctx):
         ctx.extra["enumerated_callback_combinations"] = N_ENUM
         ctx.extra["enumerated_handshake_combinations"] = n_hs_enum
         ctx.extra["enumerated_two_handshake_histories"] = n_hist
+        ctx.extra["enumerated_realstack_handshakes"] = n_rs
     finally:
         w.close()
